@@ -163,7 +163,7 @@ Fixpoint process_runs (o : opts) (sizes : list (name * N)) (prev : option name) 
       match lookup c sizes with
       | None => Err E_UNKNOWN_CHROM
       | Some len =>
-          (* a chromosome whose run reappears is refused (/repo 6b10d42): checked after the size
+          (* a chromosome whose run reappears is refused (/repo 4ea85d7): checked after the size
              lookup and before an id is handed out *)
           match lookup c ids with
           | Some _ => Err E_CHROM_SPLIT
